@@ -172,6 +172,45 @@ def NFs : CTys → Bool
   | .cons c t rest => !c && (adjArr c t).isNone && NF t && NFs rest
 end
 
+/-! ## argument classes of scalars (SysV x86-64, psABI 3.2.3) -/
+
+/-- C scalar kinds that occur in signatures (`IntKind` / `FloatKind` collapsed to what matters for
+passing) -/
+inductive SKind where
+  | bool | int (bits : Nat) (signed : Bool) | float | double | longDouble
+  deriving DecidableEq, Repr, Inhabited
+
+/-- Rust primitives bindgen renders scalars as -/
+inductive RPrim where
+  | bool | int (bits : Nat) (signed : Bool) | f32 | f64
+  deriving DecidableEq, Repr, Inhabited
+
+/-- `int_kind_rust_type` / `float_kind_rust_type` on x86-64: `long double` (16 bytes) has no Rust
+counterpart and becomes `integer_type(layout)` = `u128` -/
+def lowerScalar : SKind → RPrim
+  | .bool => .bool
+  | .int b s => .int b s
+  | .float => .f32
+  | .double => .f64
+  | .longDouble => .int 128 false
+
+inductive AbiClass where
+  | integer | sse | x87 | x87up
+  deriving DecidableEq, Repr, Inhabited
+
+/-- classes of the eightbytes of a C scalar -/
+def cClass : SKind → List AbiClass
+  | .bool => [.integer]
+  | .int b _ => if b ≤ 64 then [.integer] else [.integer, .integer]
+  | .float | .double => [.sse]
+  | .longDouble => [.x87, .x87up]
+
+/-- classes rustc's `extern "C"` lowering gives a Rust primitive -/
+def rClass : RPrim → List AbiClass
+  | .bool => [.integer]
+  | .int b _ => if b ≤ 64 then [.integer] else [.integer, .integer]
+  | .f32 | .f64 => [.sse]
+
 /-! ## ABI selection: `FunctionSig::abi` -/
 
 /-- `ClangAbi` -/
